@@ -17,6 +17,8 @@ func ProfileFor(prop, tier string, r *Rng) *Profile {
 	switch prop {
 	case "C03", "C04", "C05", "C15", "C12":
 		p.Scenarios = 0.03
+	case "C14":
+		p.Scenarios = 0.04
 	case "C01", "C11", "C19", "C13", "C07", "C06":
 		p.Scenarios = 0.01
 	}
